@@ -67,6 +67,9 @@ def registration_table(ctx):
             b.attrs["n"] = meths["n"]
         dict_ = dict(meths)
         dict_["some_attribute"] = Obj("not_a_method")
+        a0.attrs["__dict__"] = {"m": Obj("A0.m", _dinfo={"watch": True})}
+        a.attrs["__dict__"] = {"m": m_a}
+        b.attrs["__dict__"] = dict_
         own_deps = {}
 
         def hook(fn, args, kwargs):
@@ -111,6 +114,83 @@ def registration_table(ctx):
                 problems.append("%s: the entry for m is not the one of the nearest ancestor (A re-declared m; an entry from further up carries a stale dependency list)" % desc)
         if names.count("n") != (1 if adds_n else 0):
             problems.append("%s: the table lists n %d time(s)" % (desc, names.count("n")))
+    n2, p2 = _registration_shapes(ctx, f, stmts)
+    return n + n2, problems + p2
+
+
+def _registration_shapes(ctx, f, stmts):
+    """Further hierarchies: classes that inherit an entry without declaring the method, and a diamond.
+
+    chain:   A0 declares m;  A(A0) does not (its table holds A0's entry);  B(A) does not define m
+    diamond: A declares m;  B2(A) overrides it (own entry);  C2(A) does not (its table holds A's entry);  D(C2, B2)
+             -- Python resolves D.m to B2.m, so D must carry B2's entry, exactly once
+    diamond, undecorated: as above but B2's override is undecorated -> D.m is not called automatically
+    """
+    problems, n = [], 0
+    for shape in ("chain", "diamond", "diamond-undecorated", "diamond-both"):
+        entry_a = ("m", False, False, [Obj("deps_declared_on_A")], [])
+        entry_b2 = ("m", False, False, [Obj("deps_declared_on_B2")], [])
+        entry_c2 = ("m", False, False, [Obj("deps_declared_on_C2")], [])
+        m_a = Obj("A.m", _dinfo={"watch": True})
+        m_b2 = Obj("B2.m", _dinfo={"watch": True}) if shape != "diamond-undecorated" else Obj("B2.m_plain")
+        m_c2 = Obj("C2.m", _dinfo={"watch": True})
+        new_param = Obj("new.param")
+        if shape == "chain":
+            a0 = Obj("A0", param=Obj("A0.param", _depends={"watch": [entry_a]}), _param__parameters=True, m=m_a)
+            a0.attrs["__dict__"] = {"m": m_a}
+            a = Obj("A", param=Obj("A.param", _depends={"watch": [entry_a]}), _param__parameters=True, m=m_a)
+            a.attrs["__dict__"] = {}
+            new = Obj("B", param=new_param, _param__parameters=True, m=m_a)
+            new.attrs["__dict__"] = {}
+            classes = [a0, a, new]
+            want, desc = entry_a, "B(A(A0)): only A0 declares m (A carries the inherited entry), B does not define m"
+        else:
+            a = Obj("A", param=Obj("A.param", _depends={"watch": [entry_a]}), _param__parameters=True, m=m_a)
+            a.attrs["__dict__"] = {"m": m_a}
+            b2 = Obj("B2", param=Obj("B2.param", _depends={"watch": [entry_b2] if shape != "diamond-undecorated" else []}), _param__parameters=True, m=m_b2)
+            b2.attrs["__dict__"] = {"m": m_b2}
+            c2_declares = shape == "diamond-both"
+            c2 = Obj("C2", param=Obj("C2.param", _depends={"watch": [entry_c2] if c2_declares else [entry_a]}), _param__parameters=True, m=m_c2 if c2_declares else m_a)
+            c2.attrs["__dict__"] = {"m": m_c2} if c2_declares else {}
+            resolved = m_c2 if c2_declares else m_b2            # MRO: D, C2, B2, A
+            new = Obj("D", param=new_param, _param__parameters=True, m=resolved)
+            new.attrs["__dict__"] = {}
+            classes = [a, b2, c2, new]                         # classlist: base first (the reversed MRO)
+            want = None if shape == "diamond-undecorated" else (entry_c2 if c2_declares else entry_b2)
+            desc = {"diamond": "D(C2, B2) with B2(A) overriding m and C2(A) not: D.m is B2.m",
+                    "diamond-undecorated": "D(C2, B2) with B2(A) overriding m undecorated and C2(A) not: D.m is B2's plain method",
+                    "diamond-both": "D(C2, B2) with both B2(A) and C2(A) overriding m: D.m is C2.m"}[shape]
+
+        def hook(fn, args, kwargs):
+            if fn == "hasattr" and len(args) == 2:
+                return isinstance(args[0], Obj) and args[1] in args[0].attrs
+            if fn == "MInfo":
+                return Obj("minfo", **kwargs)
+            if fn == "_params_depended_on" and args:
+                return ([Obj("deps_of_new_class")], [])
+            if fn == "classlist":
+                return list(classes)
+            return NotImplemented
+        it = Interp(ctx.hier, call_hook=hook)
+        env = {"mcs": new, "dict_": {"some_attribute": Obj("not_a_method")}, "name": new.name}
+        try:
+            it.choices, it.cursor, it.imprecise, it.notes = [], 0, False, []
+            for st in stmts:
+                it.exec(st, env, f)
+        except Unsupported as e:
+            raise AnalysisError("depends model: absint cannot interpret the registration table code: %s" % e)
+        if it.imprecise:
+            raise AnalysisError("depends model: the registration table code is not interpretable precisely (%s)" % it.notes[:2])
+        n += 1
+        table = new_param.attrs.get("_depends", {}).get("watch") if isinstance(new_param.attrs.get("_depends"), dict) else None
+        if not isinstance(table, list):
+            raise AnalysisError("depends model: param._depends['watch'] is not a list the model can read (%r)" % (table,))
+        ms = [e for e in table if isinstance(e, tuple) and e[0] == "m"]
+        if len(ms) != (0 if want is None else 1):
+            problems.append("%s: the table lists m %d time(s), specification %d" % (desc, len(ms), 0 if want is None else 1))
+        elif want is not None and ms[0] is not want:
+            problems.append("%s: the entry registered for m carries %s, specification %s: the method runs on changes of parameters it does not depend on and misses its own" % (
+                desc, ms[0][3][0].name if ms[0][3] else "?", want[3][0].name))
     return n, problems
 
 
@@ -127,15 +207,23 @@ def installation(ctx):
         cC = Obj("constant_dep_c_bounds", inst=None, cls=the_cls, what="bounds", name="c")
         dyn_sub = Obj("dynamic_dep_sub.x", spec="sub.x")
         dyn_other = Obj("dynamic_dep_other.y", spec="other.y")
-        table = [("meth_sub", False, True, [cA, cB, cC], [dyn_sub]), ("meth_other", False, False, [cA], [dyn_other]), ("meth_plain", False, True, [cB], [])]
+        dyn_two_sub = Obj("dynamic_dep_sub.y", spec="sub.y")
+        dyn_two_other = Obj("dynamic_dep_other.w", spec="other.w")
+        table = [("meth_sub", False, True, [cA, cB, cC], [dyn_sub]), ("meth_other", False, False, [cA], [dyn_other]), ("meth_plain", False, True, [cB], []),
+                 ("meth_two", False, False, [], [dyn_two_sub, dyn_two_other])]
         w_old_sub = Obj("watcher_on_old_sub", inst=old_sub, cls=None)
-        w_old_other = Obj("watcher_on_other", inst=Obj("other_object", param=Obj("param_of_other")), cls=None)
+        other_object = Obj("other_object")
+        other_object.attrs["param"] = Obj("param_of_other", owner_obj=other_object)
+        w_old_other = Obj("watcher_on_other", inst=other_object, cls=None)
+        w2_sub = Obj("watcher_of_meth_two_on_old_sub", inst=old_sub, cls=None, covers=[dyn_two_sub])
+        w2_other = Obj("watcher_of_meth_two_on_other", inst=other_object, cls=None, covers=[dyn_two_other])
         import collections
         dyn_watchers = collections.defaultdict(list)
         if mode != "init":
             dyn_watchers["meth_sub"].append(w_old_sub)
             dyn_watchers["meth_other"].append(w_old_other)
-        calls = {"meth_sub": 0, "meth_other": 0, "meth_plain": 0}
+            dyn_watchers["meth_two"] += [w2_sub, w2_other]
+        calls = {"meth_sub": 0, "meth_other": 0, "meth_plain": 0, "meth_two": 0}
         bound = {k: Obj("bound_" + k, __name__=k) for k in calls}
         for k, v in bound.items():
             top.attrs[k] = v
@@ -154,7 +242,7 @@ def installation(ctx):
                 for d in args[1]:
                     out.append(Obj("resolved_" + d.name, inst=top, cls=d.attrs["cls"], what=d.attrs["what"], name=d.attrs["name"], src=d))
                 for d in args[2]:
-                    tgt = new_sub if d is dyn_sub else w_old_other.attrs["inst"]
+                    tgt = new_sub if d in (dyn_sub, dyn_two_sub) else other_object
                     out.append(Obj("resolved_" + d.name, inst=tgt, cls=Obj("SubCls"), what="value", name=d.attrs["spec"].split(".")[-1], src=d))
                 return out
             if fn == "self_._watch_group":
@@ -191,7 +279,7 @@ def installation(ctx):
         watches = [e[1] for e in log if e[0] == "watch"]
         unw = [e for e in log if e[0] == "unwatch"]
         if mode == "init":
-            for meth, want_groups in (("meth_sub", 3), ("meth_other", 2), ("meth_plain", 1)):
+            for meth, want_groups in (("meth_sub", 3), ("meth_other", 2), ("meth_plain", 1), ("meth_two", 2)):
                 got = [w for w in watches if w.attrs["method"] == meth]
                 if len(got) != want_groups:
                     problems.append("construction: %d watcher(s) installed for %s, specification %d (one per (object, what) group of its dependencies): %s" % (
@@ -199,10 +287,10 @@ def installation(ctx):
             ab = [w for w in watches if w.attrs["method"] == "meth_sub" and w.attrs["group"] and len(w.attrs["group"]) == 2]
             if len(ab) != 1:
                 problems.append("construction: the two value dependencies a and b of one method on the same object are not watched by ONE watcher (an update of both would run the method twice)")
-            if calls != {"meth_sub": 1, "meth_other": 0, "meth_plain": 1}:
+            if calls != {"meth_sub": 1, "meth_other": 0, "meth_plain": 1, "meth_two": 0}:
                 problems.append("construction: on_init methods are called %s, specification: each on_init method exactly once" % calls)
             rec = top.attrs["_param__private"].attrs["dynamic_watchers"]
-            if len(rec.get("meth_sub", [])) != 1 or len(rec.get("meth_other", [])) != 1:
+            if len(rec.get("meth_sub", [])) != 1 or len(rec.get("meth_other", [])) != 1 or len(rec.get("meth_two", [])) != 2:
                 problems.append("construction: the watchers of dynamic dependencies are not recorded under their method (they can never be moved to a newly attached sub-object)")
             if unw:
                 problems.append("construction: watchers are removed")
@@ -219,8 +307,30 @@ def installation(ctx):
             rec = top.attrs["_param__private"].attrs["dynamic_watchers"]
             if [w for w in rec.get("meth_sub", [])] != new_w or rec.get("meth_other") != [w_old_other]:
                 problems.append("replacing `sub`: dynamic_watchers is %s afterwards, specification {meth_sub: [the new watcher], meth_other: [unchanged]}" % {k: [x.name for x in v] for k, v in rec.items()})
-            if any(w.attrs["method"] != "meth_sub" for w in watches) or any(calls.values()):
+            if any(w.attrs["method"] not in ("meth_sub", "meth_two") for w in watches) or any(calls.values()):
                 problems.append("replacing `sub`: methods that do not depend on `sub` are re-registered or called")
+            # a method with dependencies under two different roots: afterwards every dependency has exactly one live, recorded watcher
+            if len([e for e in unw if e[2] is w2_sub]) != 1:
+                problems.append("replacing `sub`: the watcher a method with two path roots had on the detached sub-object is unwatched %d time(s)" % len([e for e in unw if e[2] is w2_sub]))
+            removed = [e[2] for e in unw]
+            live = list(rec.get("meth_two", []))
+            for ddep, what_ in ((dyn_two_sub, "the dependency through `sub`"), (dyn_two_other, "the dependency through ANOTHER root attribute")):
+                cover = []
+                for w in live:
+                    if any(w is r for r in removed):
+                        continue
+                    cov = w.attrs.get("covers") or [x[0] for x in (w.attrs.get("group") or [])]
+                    if any(c is ddep for c in cov):
+                        cover.append(w)
+                if len(cover) != 1:
+                    problems.append("replacing `sub`: for a method that also depends on a path through another attribute, %s has %d live recorded watcher(s) afterwards, specification 1%s" % (
+                        what_, len(cover), ": that dependency is never noticed again" if not cover else ": the method runs once per watcher"))
+            stale = [w for w in live if any(w is r for r in removed)]
+            if stale:
+                problems.append("replacing `sub`: a watcher that was removed is still recorded (%s)" % stale[0].name)
+            kept_unrecorded = [w for w in (w2_sub, w2_other) if not any(w is r for r in removed) and not any(w is x for x in live)]
+            if kept_unrecorded:
+                problems.append("replacing `sub`: %s is neither removed nor recorded any more: it can never be cleaned up" % kept_unrecorded[0].name)
         else:
             if watches or unw or any(calls.values()):
                 problems.append("a change of an attribute no dynamic dependency passes through re-registers or removes watchers")
@@ -237,6 +347,7 @@ def report(ctx, rule_a, rule_b):
         ctx.ok(rule_a, f, f.node, "depends model: %d class shapes (B below A, optionally A0; m not defined / overridden watching / overridden not watching / overridden undecorated; a new method n): "
                                   "exactly one table entry per watched method, none for a non-watching override" % n1)
     n2, p2 = installation(ctx)
+    p2 = [x for x in p2 if not x.startswith("replacing")]          # the rebinding step belongs to C07 (R07.b)
     g = ctx.repo.func(P + "Parameters._update_deps")
     ctx.abstract_cases += n2
     if p2:
@@ -250,7 +361,7 @@ def report(ctx, rule_a, rule_b):
 # (c) sub-path change filter: Parameters._watch_group + _resolve_dynamic_deps + _m_caller +
 #     _sync_caller + _skip_event interpreted together
 # --------------------------------------------------------------------------------------------------
-SPECS = ["sub.x", "sub.y", "sub.x:bounds", "sub.subsub.z", "sub.param"]
+SPECS = ["sub.x", "sub.y", "sub.x:bounds", "sub.subsub.z", "sub.param", "sub.subsub.param"]
 
 
 def _world(variant=None):
@@ -291,7 +402,7 @@ def _resolved(spec, top, s, t):
 
 def _sensitive(spec, diff):
     """Does the value reached through `spec` differ between the reference sub-object and its `diff` variant?"""
-    return {"sub.x": diff == "x", "sub.y": diff == "y", "sub.x:bounds": diff == "bx", "sub.subsub.z": diff == "z",
+    return {"sub.x": diff == "x", "sub.y": diff == "y", "sub.x:bounds": diff == "bx", "sub.subsub.z": diff == "z", "sub.subsub.param": diff == "z",
             "sub.param": diff in ("x", "y", "z", "subsub")}[spec]      # the variants z / subsub attach a different subsub object
 
 
@@ -391,9 +502,10 @@ def path_filter(ctx):
                     for diff in ("subsub", "z"):
                         _s, t_new = _world(diff)
                         leafy = any(sp == "sub.param" for sp, _ in here)          # the object itself is the value depended on
-                        want = leafy or (diff == "z" and any(sp == "sub.subsub.z" for sp, _ in here))
+                        below = any(sp in ("sub.subsub.z", "sub.subsub.param") for sp, _ in here)
+                        want = leafy or (diff == "z" and below)
                         events.append(("sub.subsub replaced by an object with %s z" % ("the same" if diff == "subsub" else "a different"),
-                                       Obj("Event", name="subsub", old=t_old, new=t_new), want, any(sp == "sub.subsub.z" for sp, _ in here)))
+                                       Obj("Event", name="subsub", old=t_old, new=t_new), want, below))
                 else:
                     events.append(("%s.%s assigned" % (inst.name, nme), Obj("Event", name=nme, old=Obj("old_leaf_value"), new=Obj("new_leaf_value")), True, False))
             for edesc, ev, want_fire, want_rebind in events:
